@@ -1,11 +1,14 @@
 //! roocverif — generates cases, runs the real rooc code on them and writes, per case, the request for
 //! the Lean model, the implementation's canonical answer and the exact-oracle request.
 mod case;
+mod corpus_models;
 mod explore;
+mod gen_model;
 mod gen_exp;
 mod props;
 mod rng;
 mod sx;
+mod text;
 
 use std::io::Write;
 
@@ -30,7 +33,7 @@ fn main() {
     let _corpus = arg(&args, "--corpus");
     let thorough = args.iter().any(|a| a == "--thorough");
     // panics are caught per case by the property modules; keep the default hook quiet
-    std::panic::set_hook(Box::new(|_| {}));
+    if std::env::var("VERIF_PANIC_TRACE").is_err() { std::panic::set_hook(Box::new(|_| {})); }
     let corpus = _corpus.as_deref();
     let cases = match prop.as_str() {
         "C01" => props::c01::generate(seed, n, thorough, corpus),
